@@ -212,7 +212,34 @@ func genMetric(r *rng, ver int, adversarial float64) string {
 	if r.chance(0.5) {
 		return r.pick(allAbvs)
 	}
+	if r.chance(0.15) {
+		var a []string
+		for _, m := range sp.Metrics {
+			a = append(a, m.Abv)
+		}
+		return glue(r, a)
+	}
 	return nearMiss(r, r.pick(allAbvs))
+}
+
+// glue joins two or three legal strings with a separator: a matcher that
+// walks a packed list, compares prefixes or trims its input accepts these.
+func glue(r *rng, xs []string) string {
+	sep := r.pick([]string{" ", "/", ",", ":", "|", "", "\x00", "\t", ";"})
+	n := 2 + r.intn(2)
+	out := ""
+	start := r.intn(len(xs))
+	for i := 0; i < n; i++ {
+		if i > 0 {
+			out += sep
+		}
+		if r.chance(0.7) {
+			out += xs[(start+i)%len(xs)] // consecutive in table order
+		} else {
+			out += r.pick(xs)
+		}
+	}
+	return out
 }
 
 func genValue(r *rng, ver int, abv string, adversarial float64) string {
@@ -220,6 +247,9 @@ func genValue(r *rng, ver int, abv string, adversarial float64) string {
 	m := sp.metric(abv)
 	if m != nil && !r.chance(adversarial) {
 		return r.pick(m.Values)
+	}
+	if m != nil && r.chance(0.2) {
+		return glue(r, m.Values)
 	}
 	if r.chance(0.6) {
 		return r.pick(allVals)
@@ -283,7 +313,12 @@ func genPlanOpt(seed uint64, prop string, cold bool) *Plan {
 	for k := 0; k < nShared && len(p.Cells) < 12; k++ {
 		mode := []string{mRO, mROHeap, mLock}[r.intn(3)]
 		if prop != "C14" {
+			// histories on shared objects run under the caller's lock; some
+			// shared objects are only read, by everybody, without a lock
 			mode = mLock
+			if r.chance(0.3) {
+				mode = mROHeap
+			}
 		}
 		p.Cells = append(p.Cells, CellSpec{Ver: pickVer(r, 0.25), Mode: mode, Owner: -1, Init: cellInit(r)})
 	}
